@@ -238,6 +238,11 @@ def evalCheck (c0 : CaseSt) (ov : Override) (toks : List String) (rawOv : Nat â†
       | some r, some rq => showVerdict (c01Verdict rq.a rq.b r rq.op tol)
       | _, _ => "skip unresolved"
     | _, _ => "skip unresolved"
+  | ["sameregion", k1, k2, tol] =>
+    -- through the definition whose soundness is `Gbo.Props.sameRegion_check_sound`
+    match k1.toNat?.bind res, k2.toNat?.bind res, parseRat? tol with
+    | some a, some b, some tol => showVerdict (sameRegionVerdict a b tol)
+    | _, _, _ => "skip unresolved"
   | ["valid", k, tol] =>
     match k.toNat?.bind res, parseRat? tol with
     | some m, some tol => showVerdict (validOutput m tol)
